@@ -630,6 +630,10 @@ class IlogInv(LoopInv):
         c = zint(field(s, 'index'))
         return And(c % 8 == 0, c >= 0, c <= zint(field(s, 'size')), list_term(fr.locals['lines']) == self.L(it.ctx).at(c / 8))
 
+    def variant(self, it, fr):
+        s = fr.locals['stream']
+        return simp(zint(field(s, 'size')) - zint(field(s, 'index')))      # termination: every iteration consumes 8 bytes
+
     def unfold(self, it, fr, i):
         """L(K+1) for the iteration just executed (the case is decided on this path)"""
         ctx = it.ctx
@@ -1228,6 +1232,10 @@ class BufferReadInv(LoopInv):
         return z3.And(zint(field(s, 'index')) == Pos.at(K), list_term(field(fr.locals['self'], 'entries')) == EL.at(K),
                       zint(field(s, 'index')) >= 0, zint(field(s, 'index')) <= zint(field(s, 'size')),
                       z3.ForAll([k], z3.Implies(z3.And(k >= 0, k < K), z3.And(OK(k), Pos.at(k) < hsize))))
+
+    def variant(self, it, fr):
+        s = fr.locals['stream']
+        return simp(zint(field(s, 'size')) - zint(field(s, 'index')))      # termination: every entry read consumes >= 20 bytes
 
     def unfold(self, it, fr, i):
         ctx = it.ctx
